@@ -93,6 +93,29 @@ func init() {
 						{Name: "p1", Ops: []Op{{Op: "pass"}}},
 					}}})
 			}
+			// the same first-use races on a root whose sanitizer rewrites the name (the maps are keyed by the sanitized name)
+			for _, kd := range kinds {
+				if kd.k == "scope" {
+					continue
+				}
+				first := []Op{{Op: "get", H: "root", M: "x-y", K: kd.k}}
+				switch kd.k {
+				case "counter":
+					first = append(first, Op{Op: "inc", H: "root", M: "x-y", V: 1})
+				case "timer":
+					first = append(first, Op{Op: "rec", H: "root", M: "x-y", V: 1})
+				case "histogram":
+					first = append(first, Op{Op: "hrec", H: "root", M: "x-y", V: 1})
+				}
+				second := append([]Op{}, first...)
+				if kd.k == "gauge" {
+					first = append(first, Op{Op: "upd", H: "root", M: "x-y", V: 1})
+				}
+				out = append(out, scenarioSet{mode: "dfs", maxExec: 800, sc: &Scenario{
+					Name: "c09-" + kd.k + "-sanitized-" + rep, Reporter: rep, Sanitize: true, Points: []string{"op_get", kd.probe, kd.lock, "rp_alloc", "op_inc", "op_upd", "op_rec", "op_hrec"},
+					Threads: []ThreadSpec{{Name: "a1", Ops: first}, {Name: "a2", Ops: second}},
+				}})
+			}
 			// three goroutines, two names, all kinds, sub-scope creation, recorder on an existing metric, loop: random over all points
 			n := 300
 			if thorough {
